@@ -2309,6 +2309,15 @@ impl BytecodeVM {
                 let left_prim = interp.coerce_to_primitive(left_val, "default")?;
                 let right_prim = interp.coerce_to_primitive(right_val, "default")?;
 
+                // A symbol converts neither to a string nor to a number implicitly
+                if matches!(left_prim, JsValue::Symbol(_))
+                    || matches!(right_prim, JsValue::Symbol(_))
+                {
+                    return Err(JsError::type_error(
+                        "Cannot convert a Symbol value to a string",
+                    ));
+                }
+
                 let result = match (&left_prim, &right_prim) {
                     (JsValue::String(a), _) => {
                         let right_str = interp.to_js_string(&right_prim);
